@@ -37,6 +37,7 @@ struct TokenParser {
     parse_steps: usize,
     max_parse_steps: usize,
     budget_exhausted: bool,
+    nesting_units: usize,
 }
 
 impl TokenParser {
@@ -53,6 +54,12 @@ impl TokenParser {
     const BP_NOT: u8 = 40;
     const PARSE_STEP_FACTOR: usize = 2_048;
     const PARSE_STEP_FLOOR: usize = 50_000;
+    // Parsing, planning, evaluation and drop all recurse along the syntax tree, so its height
+    // must stay bounded or a hostile query overflows the stack. A nested construct costs
+    // NEST_COST units, one more element of a chain (a + b + ..., a.b.c, ()-[]->()-[]->(),
+    // clause after clause) costs one.
+    const MAX_NESTING_UNITS: usize = 1_024;
+    const NEST_COST: usize = 8;
 
     fn new(tokens: Vec<Token>) -> Self {
         let max_parse_steps = Self::max_parse_steps_for(tokens.len());
@@ -63,6 +70,16 @@ impl TokenParser {
             parse_steps: 0,
             max_parse_steps,
             budget_exhausted: false,
+            nesting_units: 0,
+        }
+    }
+
+    fn enter_nested(&mut self, cost: usize) -> Result<(), Error> {
+        self.nesting_units = self.nesting_units.saturating_add(cost);
+        if self.nesting_units > Self::MAX_NESTING_UNITS {
+            Err(Self::parser_complexity_error())
+        } else {
+            Ok(())
         }
     }
 
@@ -92,11 +109,21 @@ impl TokenParser {
     }
 
     fn parse_query(&mut self) -> Result<Query, Error> {
+        let saved = self.nesting_units;
+        let result = self
+            .enter_nested(Self::NEST_COST)
+            .and_then(|()| self.parse_query_inner());
+        self.nesting_units = saved;
+        result
+    }
+
+    fn parse_query_inner(&mut self) -> Result<Query, Error> {
         self.ensure_budget()?;
         let mut clauses = self.parse_single_query_clauses()?;
         let mut union_mode: Option<bool> = None;
 
         while self.match_token(&TokenType::Union) {
+            self.enter_nested(1)?;
             let all = self.match_token(&TokenType::All);
             if let Some(existing) = union_mode {
                 if existing != all {
@@ -127,6 +154,7 @@ impl TokenParser {
             && !self.check(&TokenType::Union)
             && !self.check(&TokenType::RightBrace)
         {
+            self.enter_nested(1)?;
             if let Some(clause) = self.parse_clause()? {
                 clauses.push(clause);
             } else {
@@ -609,6 +637,7 @@ impl TokenParser {
         elements.push(PathElement::Node(self.parse_node_pattern()?));
 
         while self.check_relationship_start() {
+            self.enter_nested(1)?;
             elements.push(PathElement::Relationship(
                 self.parse_relationship_pattern()?,
             ));
@@ -1001,6 +1030,15 @@ impl TokenParser {
     }
 
     fn parse_expression_bp(&mut self, min_bp: u8) -> Result<Expression, Error> {
+        let saved = self.nesting_units;
+        let result = self
+            .enter_nested(Self::NEST_COST)
+            .and_then(|()| self.parse_expression_bp_inner(min_bp));
+        self.nesting_units = saved;
+        result
+    }
+
+    fn parse_expression_bp_inner(&mut self, min_bp: u8) -> Result<Expression, Error> {
         self.ensure_budget()?;
         let mut lhs = self.parse_prefix_expression()?;
 
@@ -1009,6 +1047,7 @@ impl TokenParser {
             if !self.match_token(&TokenType::Is) {
                 break;
             }
+            self.enter_nested(1)?;
             let op = if self.match_token(&TokenType::Not) {
                 self.consume_null_keyword("Expected NULL after IS NOT")?;
                 BinaryOperator::IsNotNull
@@ -1029,6 +1068,7 @@ impl TokenParser {
 
             // Consume operator token(s)
             self.advance();
+            self.enter_nested(1)?;
             if needs_with {
                 self.consume(&TokenType::With, "Expected WITH after STARTS/ENDS")?;
             }
@@ -1048,6 +1088,7 @@ impl TokenParser {
                         break;
                     }
                     self.advance();
+                    self.enter_nested(1)?;
                     if next_needs_with {
                         self.consume(&TokenType::With, "Expected WITH after STARTS/ENDS")?;
                     }
@@ -1328,6 +1369,7 @@ impl TokenParser {
 
         // Postfix operators: property access, indexing/slicing, label predicates.
         loop {
+            self.enter_nested(1)?;
             if self.match_token(&TokenType::Dot) {
                 let property = self.parse_property_key()?;
                 expr = match expr {
@@ -1458,10 +1500,12 @@ impl TokenParser {
         }
 
         let checkpoint = self.position;
+        let units = self.nesting_units;
         match self.parse_pattern() {
             Ok(pattern) if pattern.elements.len() >= 3 => Some(pattern),
             _ => {
                 self.position = checkpoint;
+                self.nesting_units = units;
                 None
             }
         }
@@ -1762,11 +1806,13 @@ impl TokenParser {
 
         if self.maybe_pattern_comprehension_start() {
             let checkpoint = self.position;
+            let units = self.nesting_units;
             match self.parse_pattern_comprehension() {
                 Ok(expr) => return Ok(expr),
                 Err(_) => {
                     // Not a pattern comprehension: rewind and parse as a list literal.
                     self.position = checkpoint;
+                    self.nesting_units = units;
                 }
             }
         }
